@@ -33,7 +33,7 @@ def spin_shapes(rng, n):
         ap = rng.choice(appends)
         pat = rng.choice(pats)
         hd = rng.choice(handlers)
-        kind = rng.randrange(13)
+        kind = rng.randrange(14)
         if kind == 0:
             body = f'"x"; loop {{ try {{ {ap} {pat}; }} catch (outofspace) {{ {hd} }} }}'
         elif kind == 1:
@@ -59,10 +59,15 @@ def spin_shapes(rng, n):
             body = f'loop outer {{ loop {{ case {{ {pat} -> {{ i = 1; }} else -> {{ break; }} }} }} i = 3; {rng.choice(["", chr(34) + "q" + chr(34) + ";"])} }}'
         elif kind == 11:
             body = f'optional {{ "#"; }} loop {{ case {{ {pat} -> {{ i = [i + 1]; }} else -> {{ i = 0; }} }} }}'
-        else:
+        elif kind == 12:
             body = f'try {{ "xy"; }} catch (nomatch) {{ }} loop {{ try {{ {pat}; }} catch (nomatch) {{ {rng.choice(["", "i = 1;"])} }} }}'
+        else:
+            # a conditional break of the inner loop lands at the end of the outer loop's body: when nothing there
+            # consumes, control is back at the same condition with the same data
+            tail = rng.choice(["", "h();", '"q";', f"{pat};"])
+            body = f'loop a {{ loop b {{ if i == 0 {{ break b; }} {pat}; }} {tail} }}'
         src = decl + "parser {\n  " + body + "\n}\n"
-        out.append({"name": f"spin-{k}", "src": src, "feats": {}, "args": [], "origin": "spin-shape",
+        out.append({"name": f"spin-{k}", "src": src, "feats": {}, "args": [], "origin": "spin-shape", "shape": kind,
                     "level": rng.choice(["-O0", "-O1", "-O3"])})
     return out
 
@@ -88,7 +93,11 @@ def work(job):
     if not nospin or not yprog:
         paths = rtdiff.model().ask("spin", c.opts, c.mt, timeout=60)
         redirect = "ask:full:" in paths and "=true" in paths
-        res["candidate"] = {"noSpin": nospin, "yieldProgress": yprog, "paths": paths[:600], "through_outofspace_redirect": redirect}
+        first = re.findall(r"hook:\S+:\(some \d+\)|\S+", paths.split(" ;; ")[0].partition("path=")[2])
+        conds = {e for e in first if e.startswith("ask:cond:")}
+        only_conds = len(conds) == 1 and all(e.startswith("ask:cond:") or e.startswith("hook:") for e in first)
+        res["candidate"] = {"noSpin": nospin, "yieldProgress": yprog, "paths": paths[:600], "through_outofspace_redirect": redirect,
+                            "only_conditions": only_conds}
     n_runs = 6 if tier == "quick" else 20
     datas = [inputs.random_walk(c.dfa, rng, rng.randint(1, 30)) for _ in range(n_runs)]
     if res["candidate"]:
@@ -161,6 +170,9 @@ def main():
         for v in r["viol"]:
             confirmed = True
             key = "spin-through-outofspace-redirect" if v["through_outofspace_redirect"] else f"spin/{population.src_hash(prog['src'])}"
+            if prog.get("shape") == 13 and r["candidate"] and r["candidate"].get("only_conditions"):
+                # the recorded finding: every move of the cycle is the same data condition of a conditional break
+                key = "spin-through-conditional-break"
             ck.report(key, f"{r['name']}: feed does not return on input {v['input']} (binary killed by the alarm)",
                       {"program": prog["src"], "candidate": r["candidate"], **v})
         if r["candidate"]:
